@@ -5,6 +5,7 @@ import (
 	"fmt"
 	"strconv"
 	"strings"
+	"sync"
 	"time"
 
 	"github.com/deckhouse/deckhouse/pkg/log"
@@ -37,6 +38,31 @@ type c07Task struct {
 
 var c07TaskTypes = []task.TaskType{task_metadata.HookRun, task_metadata.EnableKubernetesBindings, "VerifOther"}
 var c07CtxTypes = []kemtypes.KubeEventType{kemtypes.TypeSynchronization, kemtypes.TypeEvent, "Group", "Schedule", ""}
+
+// c07HookNames: what the interned hook number stands for in the real metadata. The names are
+// pairwise different strings that LOOK equal: letter case only, one a prefix of the other, trailing
+// characters, a path separator, unicode case pairs (hook names are paths relative to the hooks
+// directory; all of these are different files on a case-sensitive file system). One table per case.
+var c07HookNameSets = [][]string{
+	{"", "hook1", "hook2", "hook3"},
+	{"", "10-Sync.sh", "10-sync.sh", "10-SYNC.sh"},
+	{"", "sync.sh", "sync.sh.bak", "sync.s"},
+	{"", "a/hook.sh", "A/hook.sh", "a/hook.sh "},
+	{"", "hook", "hook.sh", "hooks"},
+	{"", "001-hook.sh", "01-hook.sh", "1-hook.sh"},
+	{"", "straße.sh", "STRASSE.sh", "strasse.sh"},
+	{"", "ſync.sh", "sync.sh", "Sync.sh"}, // U+017F folds to s
+	{"", "Kelvin.sh", "\u212Aelvin.sh", "kelvin.sh"},
+	{"", "dir/hook.sh", "dir//hook.sh", "./dir/hook.sh"},
+}
+
+func c07HookName(set, h int) string {
+	names := c07HookNameSets[set%len(c07HookNameSets)]
+	if h >= 0 && h < len(names) && h > 0 {
+		return names[h]
+	}
+	return "hook" + strconv.Itoa(h)
+}
 
 func c07Group(g int) string {
 	if g == 0 {
@@ -71,10 +97,18 @@ func (t c07Task) line() string {
 
 type c07World struct {
 	prefix string
+	names  int // index into c07HookNameSets
 	op     *shell_operator.ShellOperator
 	tqs    *queue.TaskQueueSet
-	names  []int // queue numbers in definition order
+	qnums  []int // queue numbers in definition order
 	cancel context.CancelFunc
+
+	// probe: a concurrent AddLast launched from inside the combiner's k-th access to a queued task
+	pmu      sync.Mutex
+	pArmed   bool
+	pLeft    int
+	pFire    func()
+	pTouches int
 }
 
 func (w *c07World) qname(n int) string { return fmt.Sprintf("%s-q%d", w.prefix, n) }
@@ -85,13 +119,49 @@ func newC07World(prefix string, queues []int) *c07World {
 	tqs := queue.NewTaskQueueSet()
 	tqs.WithContext(ctx)
 	op.TaskQueues = tqs
-	w := &c07World{prefix: prefix, op: op, tqs: tqs, names: queues, cancel: cancel}
+	w := &c07World{prefix: prefix, op: op, tqs: tqs, qnums: queues, cancel: cancel}
 	// queue 1 plays the main queue of this set (a name of its own per case: yield points are keyed by queue name)
 	tqs.WithMainName(w.qname(1))
 	for _, n := range queues {
 		tqs.NewNamedQueue(w.qname(n), func(task.Task) queue.TaskResult { return queue.TaskResult{Status: queue.Success} })
 	}
 	return w
+}
+
+// c07Probe is a queued task that tells the world about every access the code under test makes to
+// it (GetId / GetType / GetMetadata): the k-th access of a call launches an AddLast from another
+// goroutine and gives it a moment to get in. Wherever the combiner reads tasks without holding the
+// queue lock, the append lands right there; where it holds the lock, the append waits for it.
+type c07Probe struct {
+	*task.BaseTask
+	w *c07World
+}
+
+func (p *c07Probe) GetId() string            { p.w.touch(); return p.BaseTask.GetId() }
+func (p *c07Probe) GetType() task.TaskType   { p.w.touch(); return p.BaseTask.GetType() }
+func (p *c07Probe) GetMetadata() interface{} { p.w.touch(); return p.BaseTask.GetMetadata() }
+
+func (w *c07World) touch() {
+	w.pmu.Lock()
+	if !w.pArmed {
+		w.pmu.Unlock()
+		return
+	}
+	w.pTouches++
+	w.pLeft--
+	if w.pLeft != 0 {
+		w.pmu.Unlock()
+		return
+	}
+	w.pArmed = false
+	f := w.pFire
+	w.pmu.Unlock()
+	f()
+}
+
+// mkProbeTask: the same task, wrapped.
+func (w *c07World) mkProbeTask(t c07Task) task.Task {
+	return &c07Probe{BaseTask: w.mkTask(t).(*task.BaseTask), w: w}
 }
 
 func (w *c07World) mkTask(t c07Task) task.Task {
@@ -122,7 +192,7 @@ func (w *c07World) mkMeta(t c07Task) task_metadata.HookMetadata {
 	for _, m := range t.Mons {
 		ms = append(ms, "m"+strconv.Itoa(m))
 	}
-	return task_metadata.HookMetadata{HookName: "hook" + strconv.Itoa(t.Hook), BindingType: htypes.OnKubernetesEvent,
+	return task_metadata.HookMetadata{HookName: c07HookName(w.names, t.Hook), BindingType: htypes.OnKubernetesEvent,
 		BindingContext: cs, MonitorIDs: ms, AllowFailure: t.AF}
 }
 
@@ -149,7 +219,7 @@ func c07ObsCtxs(cs []bctx.BindingContext) string {
 
 func (w *c07World) obsQueues() string {
 	var parts []string
-	for _, n := range w.names {
+	for _, n := range w.qnums {
 		var ids []string
 		w.tqs.GetByName(w.qname(n)).Iterate(func(t task.Task) { ids = append(ids, taskID(t)) })
 		parts = append(parts, fmt.Sprintf("%d:%s", n, joinStrs(ids)))
@@ -168,6 +238,9 @@ type c07Call struct {
 	Stop   string            // "none" | "af" | "ids:…"
 	Apps   map[int][]c07Task // appended between Iterate and Filter, per queue
 	AppOrd []int
+	// Probe > 0: Apps is one task for the task's queue; it is appended by another goroutine started
+	// from inside the combiner's Probe-th access to a queued (non-head) task
+	Probe int
 }
 
 func (c c07Call) args() string {
@@ -242,6 +315,24 @@ func (w *c07World) combine(call c07Call, real task.Task) (string, string) {
 			return fmt.Sprintf("out=res ctxs=%s mons=%s", c07ObsCtxs(res.BindingContexts), joinStrs(ms))
 		})
 	}()
+	probeDone := make(chan struct{})
+	probeFired := false
+	var probeQ *queue.TaskQueue
+	var probeTask task.Task
+	if call.Probe > 0 && len(call.AppOrd) == 1 {
+		probeQ, probeTask = w.tqs.GetByName(w.qname(call.AppOrd[0])), w.mkTask(call.Apps[call.AppOrd[0]][0])
+		w.pmu.Lock()
+		w.pArmed, w.pLeft, w.pTouches = true, call.Probe, 0
+		w.pFire = func() {
+			probeFired = true // read after the combiner has returned (happens-before through `done`)
+			go func() { defer close(probeDone); probeQ.AddLast(probeTask) }()
+			select {
+			case <-probeDone:
+			case <-time.After(30 * time.Millisecond): // the queue is locked here: the append waits
+			}
+		}
+		w.pmu.Unlock()
+	}
 	out := ""
 	// One of the concurrent appends is held back and attempted while Filter is walking the queue
 	// (yield point inside the queue lock): it must wait for Filter and land behind its result.
@@ -256,6 +347,9 @@ func (w *c07World) combine(call c07Call, real task.Task) (string, string) {
 			case "combine.afterIterate":
 				reached = true
 				for _, n := range call.AppOrd {
+					if call.Probe > 0 {
+						break
+					}
 					ts := call.Apps[n]
 					if hold == nil && w.qname(n) == key && len(ts) > 0 && n == call.AppOrd[len(call.AppOrd)-1] {
 						h := ts[len(ts)-1]
@@ -278,6 +372,25 @@ func (w *c07World) combine(call c07Call, real task.Task) (string, string) {
 		case out = <-done:
 		case <-time.After(20 * time.Second):
 			out = "hang"
+		}
+	}
+	if call.Probe > 0 && probeQ != nil {
+		w.pmu.Lock()
+		w.pArmed = false
+		w.pmu.Unlock()
+		if out != "hang" {
+			if !probeFired {
+				// fewer accesses than Probe: the append comes after the call (if the call got as far as Iterate)
+				if reached {
+					probeQ.AddLast(probeTask)
+				}
+			} else {
+				select {
+				case <-probeDone:
+				case <-time.After(10 * time.Second):
+					out = "hang"
+				}
+			}
 		}
 	}
 	if hold != nil && out != "hang" {
@@ -306,6 +419,7 @@ type c07Layout struct {
 	Tasks  []c07Task     // every task (queued or not)
 	Queues map[int][]int // queue number → task ids in order
 	QOrd   []int
+	Names  int // hook name table (c07HookNameSets)
 }
 
 func (l c07Layout) task(id int) c07Task {
@@ -320,14 +434,18 @@ func (l c07Layout) task(id int) c07Task {
 // c07Run builds the real world for the layout, replays the calls and records lines.
 func c07Run(c *Case, l c07Layout, calls []c07Call, updateMeta bool) {
 	w := newC07World(fmt.Sprintf("c07-%d", c.Idx), l.QOrd)
+	w.names = l.Names
 	defer w.cancel()
 	real := map[int]task.Task{}
 	for _, t := range l.Tasks {
 		c.Op(t.line(), "ok")
 	}
 	for _, n := range l.QOrd {
-		for _, id := range l.Queues[n] {
+		for i, id := range l.Queues[n] {
 			rt := w.mkTask(l.task(id))
+			if i > 0 {
+				rt = w.mkProbeTask(l.task(id))
+			}
 			real[id] = rt
 			w.tqs.GetByName(w.qname(n)).AddLast(rt)
 		}
@@ -459,7 +577,8 @@ func (g *c07Gen) task(queue, headHook, headType int, headAF bool) c07Task {
 
 func c07Random(c *Case, rng *Rng) {
 	g := &c07Gen{rng: rng}
-	l := c07Layout{Queues: map[int][]int{}, QOrd: []int{1, 2}}
+	l := c07Layout{Queues: map[int][]int{}, QOrd: []int{1, 2}, Names: rng.Intn(len(c07HookNameSets))}
+	c.Note(fmt.Sprintf("hook-names:%q", c07HookNameSets[l.Names][1:]))
 	headHook, headType, headAF := rng.Range(1, 3), 0, rng.Bool()
 	if rng.Chance(15) {
 		headType = rng.Intn(3)
@@ -540,7 +659,13 @@ func c07Random(c *Case, rng *Rng) {
 			}
 			call.Stop = "ids:" + joinInts(ids)
 		}
-		if kind != "webhook-task" && rng.Chance(55) {
+		if kind == "head" && rng.Chance(15) {
+			// one task appended from inside the combiner's k-th access to a queued task
+			call.Apps[1] = []c07Task{g.task(1, headHook, headType, headAF)}
+			call.AppOrd = []int{1}
+			call.Probe = rng.Range(1, 5*n+2)
+			c.Note("call:append-from-inside-kth-task-access")
+		} else if kind != "webhook-task" && rng.Chance(55) {
 			for _, qn := range []int{1, 2} {
 				if qn == 2 && !rng.Chance(30) {
 					continue
@@ -587,7 +712,7 @@ func c07Exhaustive(c *Case, k int) {
 		fk = append(fk, k%kinds)
 		k /= kinds
 	}
-	l := c07Layout{Queues: map[int][]int{}, QOrd: []int{1}}
+	l := c07Layout{Queues: map[int][]int{}, QOrd: []int{1}, Names: c.Idx % len(c07HookNameSets)}
 	b := 0
 	mk := func(id, hook, typ int, meta bool, grp int) c07Task {
 		b++
@@ -619,8 +744,164 @@ func c07Exhaustive(c *Case, k int) {
 	c07Run(c, l, []c07Call{call}, false)
 }
 
+// ---------------------------------------------------------------- whole-operator cases
+
+// hook file names that look equal (case only / prefix / trailing characters)
+var c07OpNameSets = [][]string{
+	{"hook01", "hook02", "hook03"},
+	{"10-sync", "10-Sync", "10-SYNC"},
+	{"sync", "sync-2", "syn"},
+	{"Hook", "hook", "hooK"},
+	{"a.b", "a.B", "a.b.c"},
+}
+
+// c07OpHooks: 2..3 hooks, mostly in one queue (so that tasks of different hooks are adjacent), each with
+// 2..3 schedule bindings and 0..2 kubernetes bindings; per hook one of the group layouts
+// schedule-only (a `group:` carried by schedule bindings only), kubernetes-only, mixed, two groups, none.
+func c07OpHooks(c *Case, rng *Rng) []c04Hook {
+	names := PickOne(rng, c07OpNameSets)
+	c.Note(fmt.Sprintf("op-hook-names:%q", names))
+	nh := rng.Range(2, 3)
+	oneQueue := rng.Intn(2)
+	spread := rng.Chance(20)
+	var hooks []c04Hook
+	cron, bnum := 0, 0
+	for i := 0; i < nh; i++ {
+		h := c04Hook{Name: names[i], Num: i + 1, Queue: oneQueue}
+		if spread {
+			h.Queue = rng.Intn(2)
+		}
+		if rng.Chance(30) {
+			h.OnStartup = rng.Range(1, 20)
+		}
+		layout := PickOne(rng, []string{"schedule-only", "schedule-only", "kubernetes-only", "mixed", "mixed", "two-groups", "none"})
+		c.Note("group-layout:" + layout)
+		nb := rng.Range(2, 3)
+		nk := 0
+		if layout == "kubernetes-only" || layout == "mixed" || rng.Chance(30) {
+			nk = rng.Range(1, 2)
+		}
+		for j := 0; j < nb; j++ {
+			bnum++
+			cron++
+			bd := c04Binding{Name: fmt.Sprintf("b%d", bnum), Crontab: fmt.Sprintf("%d %d 1 1 *", cron%60, cron/60), AF: rng.Chance(25)}
+			switch layout {
+			case "schedule-only", "mixed":
+				if j < 2 || rng.Chance(60) {
+					bd.Group = 1
+				}
+			case "two-groups":
+				bd.Group = 1 + j%2
+			}
+			h.Bindings = append(h.Bindings, bd)
+		}
+		for j := 0; j < nk; j++ {
+			bnum++
+			kb := c04KBinding{Name: fmt.Sprintf("k%d", bnum), AF: rng.Chance(25), EOS: !rng.Chance(15)}
+			switch layout {
+			case "kubernetes-only", "mixed":
+				kb.Group = 1
+			case "schedule-only":
+				if rng.Chance(50) {
+					kb.Group = 2 // another group: g1 stays schedule-only
+				}
+			case "two-groups":
+				kb.Group = rng.Intn(3)
+			}
+			h.KBindings = append(h.KBindings, kb)
+		}
+		hooks = append(hooks, h)
+	}
+	return hooks
+}
+
+// c07Operator: the real operator with hooks loaded by the real loader; schedule / kubernetes events are
+// turned into tasks by the real controllers and handlers; runs fail and are retried. Every execution
+// (first attempt and retries) is judged by `oracle merged`.
+func c07Operator(c *Case, rng *Rng, r *Run) {
+	hooks := c07OpHooks(c, rng)
+	p := c04Plan{hooks: hooks, boInit: time.Duration(rng.Range(30, 60)) * time.Millisecond, boStep: 5 * time.Millisecond,
+		initial: map[int][]c04Ev{}, maxSteps: 60}
+	byQueue := map[int][]c04Ev{}
+	for hi, h := range hooks {
+		for bi := range h.Bindings {
+			byQueue[h.Queue] = append(byQueue[h.Queue], c04Ev{hi, bi, false})
+		}
+		for bi := range h.KBindings {
+			byQueue[h.Queue] = append(byQueue[h.Queue], c04Ev{hi, bi, true})
+		}
+	}
+	total := 0
+	for _, qn := range []int{0, 1} {
+		bs := byQueue[qn]
+		if len(bs) == 0 {
+			continue
+		}
+		n := rng.Range(2, 7)
+		cur := PickOne(rng, bs)
+		for i := 0; i < n; i++ {
+			if rng.Chance(25) {
+				cur = PickOne(rng, bs)
+			} else {
+				var same []c04Ev
+				for _, x := range bs {
+					if x.H == cur.H {
+						same = append(same, x)
+					}
+				}
+				cur = PickOne(rng, same)
+			}
+			p.initial[qn] = append(p.initial[qn], cur)
+		}
+		total += n
+	}
+	p.outcome = func(id, failed int) string {
+		if failed < 2 && rng.Chance(45) {
+			return "exit"
+		}
+		return "ok"
+	}
+	arrivals := 0
+	p.arrivals = func(qn, step int) []c04Ev {
+		if arrivals >= 4 || !rng.Chance(30) || len(byQueue[qn]) == 0 {
+			return nil
+		}
+		arrivals++
+		return []c04Ev{PickOne(rng, byQueue[qn])}
+	}
+	boArr := 0
+	p.boArrivals = func(qn, step int) []c04Ev {
+		if boArr >= 2 || !rng.Chance(30) || len(byQueue[qn]) == 0 {
+			return nil
+		}
+		boArr++
+		return []c04Ev{PickOne(rng, byQueue[qn])}
+	}
+	p.onExec = c07OnExec
+	c.Desc = fmt.Sprintf("operator: %d hooks (names %q…), event layouts main=%d q1=%d, failing runs retried", len(hooks), hooks[0].Name, len(p.initial[0]), len(p.initial[1]))
+	c.Nontrivial = total >= 2
+	c.Note("case:operator-events-and-retries")
+	c.Op("mode operator", "ok")
+	c04Execute(c, r, p)
+}
+
+// c07OnExec states the property for one execution on the real operator.
+func c07OnExec(w *c04World, qn, id int, pre, now []c04Snap, run *c04Running) {
+	w.c.Oracle(fmt.Sprintf("merged q=%d task=%d pre=%s ctxs=%s queue=%s", qn, id, w.snapIds(pre), w.hookCtxs(run.start.ctxs), w.snapIds(now)))
+	switch {
+	case run.real != nil && run.real.GetFailureCount() > 0 && len(pre) > len(now):
+		w.c.Note("oracle:merged(retry, merging more)")
+	case run.real != nil && run.real.GetFailureCount() > 0:
+		w.c.Note("oracle:merged(retry)")
+	case len(pre) > len(now):
+		w.c.Note("oracle:merged(first attempt, merging)")
+	default:
+		w.c.Note("oracle:merged(first attempt, alone)")
+	}
+}
+
 func runC07(r *Run) {
-	r.Rule = "queue layouts of 1..10 tasks in the task's queue (+0..2 in a second queue) over 3 hooks x 3 task types x metadata-less tasks x contexts (0..3 per task, unique binding names, groups {\"\",g1,g2} interleaved) x monitor ids x allowFailure; the real combineBindingContextForHook (via verif_export_c07.go) or its exported twin is called for the head task (78%), a task in the middle, with a nil queue, with a task naming another / an absent queue, for a task that is in no queue and names none (what the admission and conversion handlers run; the queue pointer is then GetByName of its empty name, as in taskHandleHookRun; oracle untouched: nothing merged, no queue changed); stop predicate nil / allowFailure-differs / id set; in 55% of the calls 1..3 tasks are appended to the queues by a second goroutine while the combiner is parked between Iterate and Filter; 35% of the cases run a second call after the task's metadata was updated with the first result. Oracle lines (head-of-own-queue calls): returned contexts = Spec.compact of the concatenation in queue order, monitor ids, every queue of the set afterwards. Non-trivial: >= 2 tasks in the queue; distinct = distinct op-line sequences. Plus whole-operator startups (real taskHandleHookRun with generated hooks: grouped/ungrouped Synchronization tasks; oracle: an ungrouped Synchronization runs with its own contexts and the queue is left alone). Thorough adds every layout of a head (3 groups) with <= 4 followers over 6 follower kinds, with and without a concurrent append."
+	r.Rule = "queue layouts of 1..10 tasks in the task's queue (+0..2 in a second queue) over 3 hooks x 3 task types x metadata-less tasks x contexts (0..3 per task, unique binding names, groups {\"\",g1,g2} interleaved) x monitor ids x allowFailure; the real combineBindingContextForHook (via verif_export_c07.go) or its exported twin is called for the head task (78%), a task in the middle, with a nil queue, with a task naming another / an absent queue, for a task that is in no queue and names none (what the admission and conversion handlers run; the queue pointer is then GetByName of its empty name, as in taskHandleHookRun; oracle untouched: nothing merged, no queue changed); stop predicate nil / allowFailure-differs / id set; in 55% of the calls 1..3 tasks are appended to the queues by a second goroutine while the combiner is parked between Iterate and Filter; 35% of the cases run a second call after the task's metadata was updated with the first result. Oracle lines (head-of-own-queue calls): returned contexts = Spec.compact of the concatenation in queue order, monitor ids, every queue of the set afterwards. Non-trivial: >= 2 tasks in the queue; distinct = distinct op-line sequences. Plus whole-operator startups (real taskHandleHookRun with generated hooks: grouped/ungrouped Synchronization tasks; oracle: an ungrouped Synchronization runs with its own contexts and the queue is left alone). Fourth wave: the hook number of a layout stands for one of 10 tables of names that look equal (letter case only, prefix of each other, trailing characters, unicode case pairs, path spellings); queued non-head tasks are probes that report every GetId/GetType/GetMetadata the combiner makes: in 15% of the head calls one task is appended by another goroutine started from inside the k-th such access (k random), so the append lands wherever the combiner reads tasks without the queue lock (and waits where it holds it). Whole-operator cases with events (40 quick / 300 thorough): 2..3 bash hooks whose file names look equal, mostly in one queue, loaded by the real loader, each with 2..3 schedule and 0..2 kubernetes bindings in one of the group layouts schedule-only / kubernetes-only / mixed / two groups / none; layouts of 2..7 tasks are built by the real schedule / kubernetes controllers and the events handler while a run is blocked, 45% of the runs fail (up to twice per task) and are retried, more tasks arrive during runs and back-offs. Oracle `merged` on EVERY execution (first attempt and retries): what the hook found in its context file = Spec.compact of the concatenation in queue order of the contexts, as the hook configuration declares them, of the head, of everything merged into it by earlier attempts and of the following run of the same hook/type; exactly that run left the queue. Thorough adds every layout of a head (3 groups) with <= 4 followers over 6 follower kinds, with and without a concurrent append."
 	// corpus
 	r.One(0, func(c *Case, _ *Rng) {
 		c.Desc = "corpus: interleaved groups, monitor ids, a foreign hook in the middle, concurrent append"
@@ -668,7 +949,7 @@ func runC07(r *Run) {
 				hooks[i].KBindings = []c04KBinding{{Name: fmt.Sprintf("kx%d", i), EOS: true}, {Name: fmt.Sprintf("ky%d", i), EOS: true, Group: rng.Intn(2)}}
 			}
 		}
-		p := c04Plan{hooks: hooks, boInit: 15 * time.Millisecond, boStep: 5 * time.Millisecond, initial: map[int][]c04Ev{}, maxSteps: 60}
+		p := c04Plan{hooks: hooks, boInit: 15 * time.Millisecond, boStep: 5 * time.Millisecond, initial: map[int][]c04Ev{}, maxSteps: 60, onExec: c07OnExec}
 		p.outcome = func(id, failed int) string {
 			if failed < 1 && rng.Chance(25) {
 				return "exit"
@@ -681,6 +962,48 @@ func runC07(r *Run) {
 		c.Op("mode operator", "ok")
 		c04Execute(c, r, p)
 	})
+	r.One(3, func(c *Case, _ *Rng) {
+		c.Desc = "corpus operator: a group carried by schedule bindings only, hooks whose names differ in letter case in one queue, combined runs that fail once and are retried"
+		c.Nontrivial = true
+		hooks := []c04Hook{
+			{Name: "10-sync", Num: 1, Queue: 1, Bindings: []c04Binding{
+				{Name: "b1", Crontab: "1 0 1 1 *", Group: 1}, {Name: "b2", Crontab: "2 0 1 1 *", Group: 1}, {Name: "b3", Crontab: "3 0 1 1 *"}}},
+			{Name: "10-Sync", Num: 2, Queue: 1, Bindings: []c04Binding{{Name: "b4", Crontab: "4 0 1 1 *"}, {Name: "b5", Crontab: "5 0 1 1 *"}}},
+		}
+		p := c04Plan{hooks: hooks, boInit: 20 * time.Millisecond, boStep: 5 * time.Millisecond, maxSteps: 40, onExec: c07OnExec,
+			initial: map[int][]c04Ev{1: {{1, 0, false}, {0, 0, false}, {0, 1, false}, {0, 0, false}, {1, 0, false}, {1, 1, false}, {0, 2, false}, {0, 1, false}}}}
+		gate := -1
+		p.outcome = func(id, failed int) string {
+			if gate < 0 {
+				gate = id
+				return "ok"
+			}
+			if failed < 1 {
+				return "exit"
+			}
+			return "ok"
+		}
+		c.Op("mode operator", "ok")
+		c04Execute(c, r, p)
+	})
+	r.One(4, func(c *Case, _ *Rng) {
+		c.Desc = "corpus: hooks whose names differ in letter case / by a suffix, adjacent in one queue; a task appended from inside the combiner's accesses to the queued tasks"
+		c.Nontrivial = true
+		for probe := 1; probe <= 16; probe++ {
+			l := c07Layout{Queues: map[int][]int{1: {1, 2, 3, 4, 5}}, QOrd: []int{1}, Names: 1 + probe%2}
+			l.Tasks = []c07Task{
+				{ID: 1, Meta: true, Hook: 1, Queue: 1, Ctxs: []c07Ctx{{1, 1, 0}}},
+				{ID: 2, Meta: true, Hook: 1, Queue: 1, Ctxs: []c07Ctx{{2, 1, 1}}},
+				{ID: 3, Meta: true, Hook: 1, Queue: 1, Ctxs: []c07Ctx{{3, 1, 1}}, Mons: []int{1}},
+				{ID: 4, Meta: true, Hook: 2, Queue: 1, Ctxs: []c07Ctx{{4, 1, 0}}},
+				{ID: 5, Meta: true, Hook: 1, Queue: 1, Ctxs: []c07Ctx{{5, 1, 0}}},
+			}
+			app := c07Task{ID: 6, Meta: true, Hook: 1, Queue: 1, Ctxs: []c07Ctx{{6, 1, 1}}}
+			c.Op("reset", "ok")
+			c07Run(c, l, []c07Call{{Twin: probe%4 >= 2, Passed: 1, T: l.Tasks[0], Stop: "none", Apps: map[int][]c07Task{1: {app}}, AppOrd: []int{1}, Probe: probe}}, false)
+		}
+	})
+	r.Cases(600000, r.N(40, 300), 0, func(c *Case, rng *Rng) { c07Operator(c, rng, r) })
 	if r.Thorough() {
 		total := 0
 		for nf, p := 0, 1; nf <= 4; nf++ {
